@@ -4,7 +4,7 @@
  * Descriptor table: socket() hands out T2_FD0, T2_FD0+1, ...; every descriptor is unused / open / closed; ioctl(FIONBIO) and
  * connect() are recorded per descriptor.  send / recv / poll / close assert that they get an OPEN descriptor.
  *
- * Request queue model: the queue holds the handles t2_h[t2_first .. t2_first + t2_qlen) in submission order (T2_QMAX handles
+ * Request queue model: the queue holds the handles t2_h0..2 numbered first .. first + qlen - 1 in submission order (T2_QMAX handles
  * exist).  Only the two ends can be removed (dispatch takes the head, reqQueue_clearWithError the tail).  Ghost per handle:
  * serialized length / state / cursor at entry, how often it left the queue, in which state, how often its queue reference was
  * released, how many octets of it were written in this call.
@@ -157,7 +157,9 @@ static int t2_listener(KSI_CTX *ctx, size_t id, void *userp, const char *host, i
 }
 
 /* ---- request queue ---- */
-struct KSI_AsyncHandle_st t2_h[T2_QMAX];
+/* one global per handle (writes through a pointer into an ARRAY of structs would become byte_updates over the whole array) */
+struct KSI_AsyncHandle_st t2_h0, t2_h1, t2_h2;
+#define T2H(k) (*((k) == 0 ? &t2_h0 : (k) == 1 ? &t2_h1 : &t2_h2))
 unsigned char *t2_rawp[T2_QMAX]; size_t t2_len0[T2_QMAX], t2_sent0[T2_QMAX]; int t2_state0[T2_QMAX]; time_t t2_reqTime0[T2_QMAX];
 size_t t2_first, t2_qlen, t2_first0, t2_qlen0;
 unsigned t2_removed[T2_QMAX], t2_released[T2_QMAX]; int t2_rm_state[T2_QMAX]; size_t t2_rm_sent[T2_QMAX];
@@ -170,7 +172,7 @@ static int t2_req_elementAt(KSI_LIST(KSI_AsyncHandle) *l, size_t pos, KSI_AsyncH
 	size_t k;
 	__CPROVER_assert(pos == 0 && t2_qlen > 0 && o != NULL, "requests are looked at only at the head of the queue (submission order)");
 	__CPROVER_assert(t2_first < T2_QMAX, "MACHINERY: queue model consistent");
-	for (k = 0; k < T2_QMAX; k++) if (k == t2_first) *o = &t2_h[k];
+	for (k = 0; k < T2_QMAX; k++) if (k == t2_first) *o = &T2H(k);
 	return KSI_OK;
 }
 static int t2_req_remove(KSI_LIST(KSI_AsyncHandle) *l, size_t pos, KSI_AsyncHandle **o) {
@@ -180,15 +182,15 @@ static int t2_req_remove(KSI_LIST(KSI_AsyncHandle) *l, size_t pos, KSI_AsyncHand
 	if (pos == 0) { idx = t2_first; t2_first++; } else { idx = t2_first + t2_qlen - 1; }
 	t2_qlen--; ++t2_rm_seq;
 	for (k = 0; k < T2_QMAX; k++) if (k == idx) {
-		t2_removed[k]++; t2_rm_state[k] = t2_h[k].state; t2_rm_sent[k] = t2_h[k].sentCount; t2_rm_order[k] = t2_rm_seq;
-		if (o != NULL) *o = &t2_h[k]; else t2_released[k]++;          /* list semantics: without receiver the element's reference is released */
+		t2_removed[k]++; t2_rm_state[k] = T2H(k).state; t2_rm_sent[k] = T2H(k).sentCount; t2_rm_order[k] = t2_rm_seq;
+		if (o != NULL) *o = &T2H(k); else t2_released[k]++;          /* list semantics: without receiver the element's reference is released */
 	}
 	return KSI_OK;
 }
 void KSI_AsyncHandle_free(KSI_AsyncHandle *h) {
 	size_t i;
 	if (h == NULL) return;
-	for (i = 0; i < T2_QMAX; i++) if (h == &t2_h[i]) t2_released[i]++;
+	for (i = 0; i < T2_QMAX; i++) if (h == &T2H(i)) t2_released[i]++;
 }
 int KSI_Utf8String_new(KSI_CTX *ctx, const char *str, size_t len, KSI_Utf8String **t) { t2_errmsg_calls++; return KSI_OUT_OF_MEMORY; }
 
@@ -208,10 +210,10 @@ ssize_t send(int fd, const void *buf, size_t len, int flags) {
 	__CPROVER_assert(t2_qlen > 0 && t2_first < T2_QMAX, "send: there is a head request");
 	__CPROVER_assume(c >= -1 && c <= (ssize_t)len && c != 0);   /* POSIX: a non-empty send on a stream socket transfers something or fails */
 	for (k = 0; k < T2_QMAX; k++) if (k == t2_first) {
-		__CPROVER_assert(t2_h[k].state == KSI_ASYNC_STATE_WAITING_FOR_DISPATCH, "only requests waiting for dispatch are written");
-		__CPROVER_assert((const unsigned char *)buf == t2_rawp[k] + t2_h[k].sentCount && len == t2_len0[k] - t2_h[k].sentCount && t2_h[k].sentCount < t2_len0[k],
+		__CPROVER_assert(T2H(k).state == KSI_ASYNC_STATE_WAITING_FOR_DISPATCH, "only requests waiting for dispatch are written");
+		__CPROVER_assert((const unsigned char *)buf == t2_rawp[k] + T2H(k).sentCount && len == t2_len0[k] - T2H(k).sentCount && T2H(k).sentCount < t2_len0[k],
 				"send continues the head request exactly where the previous partial send stopped, up to its end");
-		__CPROVER_assert(t2_h[k].sentCount == t2_wire_partial, "wire: a request is written on a connection from its first octet and only behind WHOLE requests (the octets of it already on THIS connection are exactly its send cursor)");
+		__CPROVER_assert(T2H(k).sentCount == t2_wire_partial, "wire: a request is written on a connection from its first octet and only behind WHOLE requests (the octets of it already on THIS connection are exactly its send cursor)");
 		if (c > 0) {
 			t2_written[k] += (unsigned long long)c; t2_wire_partial += (unsigned long long)c;
 			if (t2_wire_partial == t2_len0[k]) { t2_wire_partial = 0; t2_whole[k] = 1; }
